@@ -47,6 +47,8 @@ pub struct Job {
 }
 
 thread_local! {
+    /// when set, every execution's step record is printed (debugging aid: `sched-mc trace`)
+    pub static PRINT_STEPS: std::cell::Cell<bool> = const { std::cell::Cell::new(false) };
     static LAST: RefCell<Option<ExecResult>> = const { RefCell::new(None) };
     static HANG_RECORDER: RefCell<Option<fn(Value)>> = const { RefCell::new(None) };
 }
@@ -139,6 +141,17 @@ pub fn run_job(
         wrapped,
         |devs, out, _counted| {
             let res = LAST.with(|l| l.borrow_mut().take());
+            if PRINT_STEPS.with(|p| p.get()) {
+                for (i, r) in out.record.iter().enumerate() {
+                    println!("  step {i:4} task {:3} at {:<18} runnable {} -> {}", r.task, crate::point_name(r.point as u32), r.runnable, r.chosen);
+                }
+                if let Some(r) = &res {
+                    println!("  trace: {:?}", r.trace);
+                    if let Some(o) = &r.obs {
+                        println!("  obs: error={:?} panic={:?} outcomes={}", o.error, o.panic, o.outcomes.len());
+                    }
+                }
+            }
             let judgement = match (&out.end, res) {
                 (ExecEnd::Completed, Some(res)) => {
                     if traces.len() < DIGEST_CAP {
